@@ -112,6 +112,49 @@ fn err_word(e: &SqliteError) -> &'static str {
 }
 
 // ------------------------------------------------------------------------------------------------
+// schedule points inside the clean-up task of `TransactionPermit::drop` (verif hook)
+// ------------------------------------------------------------------------------------------------
+
+const P_BEFORE: &str = "drop:before-rollback";
+const P_AFTER: &str = "drop:after-rollback-before-release";
+
+/// The clean-up task parks at a point while `hold_*` is set; it only makes progress when the
+/// harness lets the runtime run, so parking and resuming are harness decisions.
+#[derive(Default)]
+struct Gate {
+    hold_before: AtomicBool,
+    hold_after: AtomicBool,
+    parked: Mutex<Option<&'static str>>,
+    seen: Mutex<Vec<&'static str>>,
+}
+
+fn install_gate() -> Arc<Gate> {
+    let g: Arc<Gate> = Default::default();
+    let g2 = g.clone();
+    let hook: p2panda_store::sqlite::verif_hooks::Hook = Arc::new(move |name: &'static str| {
+        let g = g2.clone();
+        Box::pin(async move {
+            g.seen.lock().unwrap().push(name);
+            loop {
+                let hold = match name {
+                    P_BEFORE => g.hold_before.load(Ordering::SeqCst),
+                    P_AFTER => g.hold_after.load(Ordering::SeqCst),
+                    _ => false,
+                };
+                if !hold {
+                    break;
+                }
+                *g.parked.lock().unwrap() = Some(name);
+                tokio::time::sleep(Duration::from_micros(100)).await;
+            }
+            *g.parked.lock().unwrap() = None;
+        })
+    });
+    p2panda_store::sqlite::verif_hooks::set(Some(hook));
+    g
+}
+
+// ------------------------------------------------------------------------------------------------
 // controlled schedules
 // ------------------------------------------------------------------------------------------------
 
@@ -127,6 +170,10 @@ enum Kind {
     Panic,
     CancelTask,
     Yield,
+    /// let the runtime run until the clean-up task is parked before it touches the transaction
+    YieldBefore,
+    /// let it roll back, park it before it releases the permit
+    YieldAfter,
 }
 
 #[derive(Clone, Debug)]
@@ -158,6 +205,7 @@ struct Ctl {
     store: SqliteStore, // dropped before the runtime
     rt: tokio::runtime::Runtime,
     base_alive: usize,
+    gate: Arc<Gate>,
 }
 
 impl Ctl {
@@ -168,7 +216,7 @@ impl Ctl {
             setup_table(&s).await;
             s
         });
-        let mut c = Ctl { store, rt, base_alive: 0 };
+        let mut c = Ctl { store, rt, base_alive: 0, gate: install_gate() };
         c.quiesce();
         c.base_alive = c.rt.metrics().num_alive_tasks();
         c
@@ -184,6 +232,15 @@ impl Ctl {
             loop {
                 tokio::task::yield_now().await;
                 if m.num_alive_tasks() <= base {
+                    return true;
+                }
+                if self.gate.parked.lock().unwrap().is_some() {
+                    // the clean-up task sits at a schedule point on purpose; give the other
+                    // spawned tasks (sqlx housekeeping) a moment and return
+                    for _ in 0..20 {
+                        tokio::task::yield_now().await;
+                    }
+                    tokio::time::sleep(Duration::from_micros(500)).await;
                     return true;
                 }
                 if t0.elapsed() > Duration::from_secs(5) {
@@ -327,6 +384,7 @@ fn run_ctl(steps: &[Step]) -> CtlResult {
     let mut contended = false;
     let mut counts = vec![];
     let mut committed_rows = 0usize;
+    let mut after_seen = 0usize; // clean-up tasks that had passed their last schedule point at the last `y`
     macro_rules! release {
         () => {
             owner = match queue.pop_front() {
@@ -369,9 +427,55 @@ fn run_ctl(steps: &[Step]) -> CtlResult {
         tasks.entry(t).or_insert(TaskSt { permit: None, pending_begin: None, ws: vec![] });
         let holds = tasks[&t].permit.is_some();
         match (&st.kind, st.cancel) {
+            (Kind::YieldBefore, _) | (Kind::YieldAfter, _) => {
+                // only meaningful while a clean-up task exists and has not got that far yet
+                if owner != Owner::Spawned {
+                    continue;
+                }
+                let before = st.kind == Kind::YieldBefore;
+                let already_after = c.gate.seen.lock().unwrap().iter().filter(|p| **p == P_AFTER).count() > after_seen;
+                if already_after || (before && c.gate.parked.lock().unwrap().is_some()) {
+                    continue;
+                }
+                req.push(if before { "yb".into() } else { "ya".into() });
+                if before {
+                    c.gate.hold_before.store(true, Ordering::SeqCst);
+                } else {
+                    c.gate.hold_after.store(true, Ordering::SeqCst);
+                    c.gate.hold_before.store(false, Ordering::SeqCst);
+                }
+                // run until parked at the requested point
+                let want = if before { P_BEFORE } else { P_AFTER };
+                let t0 = Instant::now();
+                let mut reached = false;
+                while t0.elapsed() < Duration::from_secs(5) {
+                    c.quiesce();
+                    if *c.gate.parked.lock().unwrap() == Some(want) {
+                        reached = true;
+                        break;
+                    }
+                }
+                if !before {
+                    slot_open = false; // rolled back
+                }
+                ans.push(if reached { "ok".into() } else { "HANG".into() });
+                if !reached {
+                    bad!("cleanup-never-parks", format!("the clean-up task did not reach {want}"));
+                }
+            }
             (Kind::Yield, _) => {
                 req.push("y".into());
-                let ok = c.quiesce();
+                c.gate.hold_before.store(false, Ordering::SeqCst);
+                c.gate.hold_after.store(false, Ordering::SeqCst);
+                let ok = c.quiesce() && {
+                    // a task that was parked needs another round to finish
+                    let t0 = Instant::now();
+                    while c.gate.parked.lock().unwrap().is_some() && t0.elapsed() < Duration::from_secs(5) {
+                        c.quiesce();
+                    }
+                    c.quiesce()
+                };
+                after_seen = c.gate.seen.lock().unwrap().iter().filter(|p| **p == P_AFTER).count();
                 if owner == Owner::Spawned {
                     release!();
                     slot_open = false;
@@ -777,6 +881,7 @@ fn run_ctl(steps: &[Step]) -> CtlResult {
     c.quiesce();
     // the store (and a transaction a defective protocol may have left in it) goes away inside the
     // runtime context
+    p2panda_store::sqlite::verif_hooks::set(None);
     let Ctl { store, rt, .. } = c;
     let _ = std::panic::catch_unwind(AssertUnwindSafe(move || drop(store)));
     rt.block_on(async { tokio::task::yield_now().await });
@@ -797,6 +902,7 @@ fn emit_ctl(out: &mut Out, steps: &[Step], origin: &str) -> bool {
     let r = match std::panic::catch_unwind(AssertUnwindSafe(|| run_ctl(steps))) {
         Ok(r) => r,
         Err(_) => {
+            p2panda_store::sqlite::verif_hooks::set(None);
             // the store (or sqlx underneath it) panicked outside of any observed statement
             let req = format!("ctl-crash {:?}", steps.iter().map(|s| format!("{}:{:?}/{:?}", s.task, s.kind, s.cancel)).collect::<Vec<_>>());
             let n = out.case(&req, "CRASH", false);
@@ -832,8 +938,13 @@ fn parse_ctl(req: &str) -> Option<Vec<Step>> {
     }
     let mut v = vec![];
     for tok in it {
-        if tok == "y" {
-            v.push(Step { task: 0, kind: Kind::Yield, cancel: None });
+        if tok == "y" || tok == "yb" || tok == "ya" {
+            let kind = match tok {
+                "yb" => Kind::YieldBefore,
+                "ya" => Kind::YieldAfter,
+                _ => Kind::Yield,
+            };
+            v.push(Step { task: 0, kind, cancel: None });
             continue;
         }
         let (t, rest) = tok.split_once(':')?;
@@ -891,6 +1002,57 @@ fn cancel_matrix(ending: Kind, max_k: u32) -> Vec<Vec<Step>> {
             s.push(Step { task: 1, kind: Kind::Read, cancel: None });
             s.push(Step { task: 1, kind: Kind::Write(9, false), cancel: None });
             s.push(Step { task: 1, kind: Kind::Commit, cancel: None });
+            v.push(s);
+        }
+    }
+    v
+}
+
+/// Every way a permit can be dropped uncommitted x the clean-up task parked (a) before it takes the
+/// transaction, (b) after the rollback but before `drop(permit)`: contending `begin()` calls are
+/// polled at each park position and must stay blocked until the clean-up task has finished.
+fn park_matrix() -> Vec<Vec<Step>> {
+    let st = |task: u64, kind: Kind, cancel: Option<u32>| Step { task, kind, cancel };
+    let mut v = vec![];
+    let aborts: Vec<(Kind, Option<u32>)> = vec![
+        (Kind::Drop, None),
+        (Kind::Quit, None),
+        (Kind::Panic, None),
+        (Kind::CancelTask, None),
+        (Kind::Write(3, false), Some(1)),
+        (Kind::Commit, Some(0)),
+        (Kind::Commit, Some(1)),
+        (Kind::Rollback, Some(1)),
+    ];
+    for (kind, cancel) in aborts {
+        for queued_first in [false, true] {
+            let mut s = vec![];
+            s.push(st(5, Kind::Begin, None));
+            s.push(st(5, Kind::Write(50, false), None));
+            s.push(st(5, Kind::Commit, None));
+            s.push(st(0, Kind::Begin, None));
+            s.push(st(0, Kind::Write(1, false), None));
+            s.push(st(0, Kind::Write(2, false), None));
+            if queued_first {
+                s.push(st(1, Kind::Begin, None)); // queued before the permit is dropped
+            }
+            s.push(st(0, kind.clone(), cancel));
+            s.push(st(1, Kind::Begin, None));
+            s.push(st(0, Kind::YieldBefore, None));
+            s.push(st(1, Kind::Begin, None));
+            s.push(st(2, Kind::Begin, None));
+            s.push(st(0, Kind::YieldAfter, None));
+            s.push(st(1, Kind::Begin, None));
+            s.push(st(2, Kind::Begin, None));
+            s.push(st(0, Kind::Yield, None));
+            s.push(st(2, Kind::Begin, None));
+            s.push(st(1, Kind::Begin, None));
+            s.push(st(1, Kind::Read, None));
+            s.push(st(1, Kind::Write(9, false), None));
+            s.push(st(1, Kind::Commit, None));
+            s.push(st(2, Kind::Begin, None));
+            s.push(st(2, Kind::Read, None));
+            s.push(st(2, Kind::Commit, None));
             v.push(s);
         }
     }
@@ -972,6 +1134,10 @@ fn gen_ctl(rng: &mut Rng) -> Vec<Step> {
                 }
             }
             _ => {
+                if spawned && rng.chance(1, 4) {
+                    steps.push(Step { task: 0, kind: if rng.chance(1, 2) { Kind::YieldBefore } else { Kind::YieldAfter }, cancel: None });
+                    continue;
+                }
                 if spawned && rng.chance(1, 2) {
                     steps.push(Step { task: 0, kind: Kind::Yield, cancel: None });
                     spawned = false;
@@ -1323,7 +1489,7 @@ fn main() {
     }
     let mut rng = Rng::new(args.seed);
     let (max_k, n_ctl, n_free, n_stress) = match args.tier {
-        Tier::Quick => (3, 110, 60, 60),
+        Tier::Quick => (3, 70, 30, 30),
         Tier::Thorough => (6, 1800, 700, 700),
         Tier::Search => (4, 800, 400, 800),
     };
@@ -1343,6 +1509,11 @@ fn main() {
     let mut failures = 0;
     for s in abort_kinds_matrix() {
         if emit_ctl(&mut out, &s, "abort-kinds") {
+            failures += 1;
+        }
+    }
+    for s in park_matrix() {
+        if failures < 6 && emit_ctl(&mut out, &s, "park-matrix") {
             failures += 1;
         }
     }
@@ -1379,7 +1550,7 @@ fn main() {
         }
     }
     out.finish(
-        "ctl case = hand-polled schedule of 2-6 tasks over one SqliteStore::temporary(): each task's begin / write / dirty read / commit / rollback / drop(permit) / `?` return / panic is a future polled by the harness, the spawned rollback task only runs at explicit `y` steps, a statement may be dropped after its k-th poll (k = 0..3, thorough 0..6; matrix: every statement of a 6-statement transaction x every k, for commit and rollback endings) and a contending begin is observed before and after; every observation and the final table (ord column = serialisation order recorded by SQLite itself) are compared. free case = 2-8 tokio tasks (multi-thread or current-thread runtime) with generated transaction scripts and random JoinHandle::abort(); final table compared with the model run on the observed serial order; a fresh begin()+commit() must succeed afterwards. non-trivial = case with >= 1 committed non-empty transaction, >= 2 different abort kinds and (ctl) a begin observed blocked / (free) >= 2 tasks",
+        "ctl case = hand-polled schedule of 2-6 tasks over one SqliteStore::temporary(): each task's begin / write / dirty read / commit / rollback / drop(permit) / `?` return / panic is a future polled by the harness, the spawned rollback task only runs at explicit `y` steps and can be parked through the verif hook before it takes the transaction (`yb`) and after the rollback but before it releases the permit (`ya`) (park matrix: every abort kind x both park positions x contender queued before/after), a statement may be dropped after its k-th poll (k = 0..3, thorough 0..6; matrix: every statement of a 6-statement transaction x every k, for commit and rollback endings) and a contending begin is observed before and after; every observation and the final table (ord column = serialisation order recorded by SQLite itself) are compared. free case = 2-8 tokio tasks (multi-thread or current-thread runtime) with generated transaction scripts and random JoinHandle::abort(); final table compared with the model run on the observed serial order; a fresh begin()+commit() must succeed afterwards. non-trivial = case with >= 1 committed non-empty transaction, >= 2 different abort kinds and (ctl) a begin observed blocked / (free) >= 2 tasks",
         false,
     );
 }
